@@ -57,3 +57,24 @@ func VerifIdleDecision(s *Stream, d time.Duration, closedStatus int32) bool {
 	r.run()
 	return r.closed
 }
+
+// VerifSetMaxQLen lowers the backlog limit of every consumer attached from now on
+// (0 restores the built-in 1000) so that short schedules reach the discarding logic.
+var verifMaxQLen int32
+
+func VerifSetMaxQLen(n int) { atomic.StoreInt32(&verifMaxQLen, int32(n)) }
+
+// VerifApplyMaxQLen applies the configured limit to a consumer that has just been created.
+func VerifApplyMaxQLen(s *Stream, cid CID) {
+	n := int(atomic.LoadInt32(&verifMaxQLen))
+	if n <= 0 {
+		return
+	}
+	cs := &s.consumptions
+	if cid.Type() == FLVPacket {
+		cs = &s.flvConsumptions
+	}
+	if c, ok := cs.Load(cid); ok {
+		c.(*consumption).maxQLen = n
+	}
+}
